@@ -1,4 +1,5 @@
 import Restic.Proofs.C44_Spec
+import Restic.Gen.Source
 /-!
 # C44 — every saved blob ends up in exactly one uploaded, indexed pack
 
@@ -709,5 +710,164 @@ theorem upload_then_index (ps : Nat) (hps : 0 < ps) (n : Nat) (acts : List Act) 
   refine ⟨(hl.i_iff _ _).mpr hi, (hl.u_iff _ _).mpr ?_, (hl.q_iff _ _).mpr ?_⟩
   · simp only [ids, List.map_append, List.mem_append]; exact Or.inr hi
   · simp only [ids, pipeline, List.map_append, List.mem_append]; exact Or.inr hi
+
+/-! ### the shape of a session end (`flushPackUploader`) -/
+
+def isDrain : Act → Bool
+  | .upload _ => true
+  | .store _ => true
+  | _ => false
+
+theorem drain_pm (c : Cfg) : ∀ (drain : List Act) (s : Sess), (∀ a ∈ drain, isDrain a = true) →
+    (drain.foldl (Sess.step c) s).pm = s.pm
+  | [], _, _ => rfl
+  | a :: drain, s, h => by
+    have h1 : (s.step c a).pm = s.pm := by
+      have ha := h a List.mem_cons_self
+      cases a with
+      | save _ _ => simp [isDrain] at ha
+      | flush _ => simp [isDrain] at ha
+      | upload k => simp only [Sess.step]; split <;> rfl
+      | store k => simp only [Sess.step]; split <;> rfl
+    rw [List.foldl_cons, drain_pm c drain _ (fun a ha => h a (List.mem_cons_of_mem _ ha)), h1]
+
+/-- `flushPackUploader`: after `treePM.Flush`, `dataPM.Flush` and any amount of uploader activity, if
+    the uploader has drained (nothing waiting, nothing uploaded-but-unindexed: `packerWg.Wait()`
+    returned) the session has ended in the sense of `blob_in_one_pack`. -/
+theorem ended_of_flush_drain (c : Cfg) (ps n : Nat) (pre drain : List Act) (hd : ∀ a ∈ drain, isDrain a = true)
+    (hq : (Sess.run c ps n (pre ++ [.flush .tree, .flush .data] ++ drain)).chan = [])
+    (hu : (Sess.run c ps n (pre ++ [.flush .tree, .flush .data] ++ drain)).uploaded = []) :
+    ended (Sess.run c ps n (pre ++ [.flush .tree, .flush .data] ++ drain)) := by
+  refine ⟨hq, hu, fun t => ?_⟩
+  simp only [Sess.run, List.foldl_append, List.foldl_cons, List.foldl_nil]
+  rw [drain_pm c drain _ hd]
+  cases t <;> simp [Sess.step, Sess.upd, slotPackers_flush]
+
+
+/-! ### F9: why the unfixed merge rule (byte size only) is not enough -/
+
+/-- a packer holding `k` one-byte uncompressed data blobs -/
+def tiny (serial k : Nat) : Packer := ⟨serial, List.replicate k ⟨.data, 0, 1, 0⟩, k, k⟩
+
+theorem tiny_open {c : Cfg} {ps : Nat} (serial k : Nat) (hk : k + 1 < ps)
+    (hh : c.headerSize + (k + 2) * c.entrySize ≤ c.maxHeaderSize) : Open c ps (tiny serial (k + 1)) := by
+  have hsum : sumLen (List.replicate k (⟨.data, 0, 1, 0⟩ : Blob)) = k := by
+    simp [sumLen, List.map_replicate, List.sum_replicate_nat]
+  have hle : (k + 1) * c.entrySize ≤ (k + 2) * c.entrySize := Nat.mul_le_mul_right _ (by omega)
+  refine ⟨⟨⟨by simp [tiny], ?_⟩, by simp only [tiny]; omega, ?_⟩, by simp only [tiny]; omega, ?_⟩
+  · simp [tiny, sumLen, List.map_replicate, List.sum_replicate_nat]
+  · simp only [tiny, List.replicate_succ, noAddAfterFull, Bool.and_eq_true, decide_eq_true_eq, Bool.not_eq_true',
+      hsum, List.length_replicate]
+    exact ⟨by omega, hdrFull_false.mpr (by omega)⟩
+  · simp only [tiny]; exact hdrFull_false.mpr hh
+
+/-- two legitimate open packers with `k+1` one-byte blobs each, whose combined byte size passes the
+    size test of `mergePackers` but whose merged header does not fit -/
+theorem merge_on_size_only_overflows_gen {c : Cfg} {ps : Nat} (k : Nat) (hk : 2 * (k + 1) < ps)
+    (hopen : c.headerSize + (k + 2) * c.entrySize ≤ c.maxHeaderSize)
+    (hover : c.maxHeaderSize < c.headerSize + 2 * (k + 1) * c.plainEntrySize)
+    (hcount : c.maxHeaderEntries < 2 * (k + 1)) :
+    Open c ps (tiny 0 (k + 1)) ∧ Open c ps (tiny 1 (k + 1)) ∧
+      (tiny 0 (k + 1)).bytes + (tiny 1 (k + 1)).bytes < ps ∧
+      ((tiny 0 (k + 1)).merge (tiny 1 (k + 1))).finalizeOK c = false ∧
+      ¬ ((tiny 0 (k + 1)).n + (tiny 1 (k + 1)).n ≤ c.maxHeaderEntries) := by
+  refine ⟨tiny_open 0 k (by omega) hopen, tiny_open 1 k (by omega) hopen, by simp only [tiny]; omega, ?_, by simp only [tiny]; omega⟩
+  have hb : (fun b => entryBytes c b) (⟨.data, 0, 1, 0⟩ : Blob) = c.plainEntrySize := by simp [entryBytes]
+  simp only [Packer.finalizeOK, Packer.headerBytes, merge_blobs, tiny, List.map_append, List.map_replicate,
+    List.sum_append, List.sum_replicate_nat, hb, decide_eq_false_iff_not]
+  have : 2 * (k + 1) * c.plainEntrySize = (k + 1) * c.plainEntrySize + (k + 1) * c.plainEntrySize := by
+    rw [Nat.mul_assoc, Nat.two_mul]
+  omega
+
+/-- **Negation witness for the unfixed code (F9).** Two packers with 240 000 one-byte blobs each are
+    legitimate open packers of a manager with the default pack size; their combined byte size is far
+    below the pack size — the only thing `mergePackers` tested before the fix — but the merged
+    packer's header (17.8 MB) exceeds `MaxHeaderSize`, so `Finalize` fails. The fixed rule refuses
+    this merge because the entry counts add up to more than `MaxHeaderEntries`. -/
+theorem merge_on_size_only_overflows :
+    Open genCfg Restic.Gen.repo_DefaultPackSize (tiny 0 (239999 + 1)) ∧
+    Open genCfg Restic.Gen.repo_DefaultPackSize (tiny 1 (239999 + 1)) ∧
+      (tiny 0 (239999 + 1)).bytes + (tiny 1 (239999 + 1)).bytes < Restic.Gen.repo_DefaultPackSize ∧
+      ((tiny 0 (239999 + 1)).merge (tiny 1 (239999 + 1))).finalizeOK genCfg = false ∧
+      ¬ ((tiny 0 (239999 + 1)).n + (tiny 1 (239999 + 1)).n ≤ genCfg.maxHeaderEntries) :=
+  merge_on_size_only_overflows_gen 239999 (by decide) (by decide) (by decide) (by decide)
+
+/-! ### facts regenerated from the source (tie T1) -/
+
+/-- position of the first occurrence -/
+def pos (x : String) (l : List String) : Nat := l.findIdx (· == x)
+
+/-- `packerManager.SaveBlob` takes `r.pm` first (and releases it by `defer`), then picks a packer,
+    adds, tests size and header, forgets and queues: one atomic step of the model. -/
+theorem saveBlob_shape :
+    Restic.Gen.pmSaveBlob_calls.take 2 = ["r.pm.Lock", "r.pm.Unlock"] ∧
+    (Restic.Gen.pmSaveBlob_calls.filter (fun c => c ∈ ["r.pickPacker", "packer.Add", "packer.Size", "packer.HeaderFull", "r.forgetPacker", "r.queueFn"])) =
+      ["r.pickPacker", "packer.Add", "packer.Size", "packer.HeaderFull", "packer.Size", "r.forgetPacker", "r.queueFn"] := by
+  decide
+
+/-- `Flush` runs under the same mutex and queues what `mergePackers` returns -/
+theorem flush_shape :
+    Restic.Gen.pmFlush_calls.take 2 = ["r.pm.Lock", "r.pm.Unlock"] ∧
+    pos "r.mergePackers" Restic.Gen.pmFlush_calls < pos "r.queueFn" Restic.Gen.pmFlush_calls ∧
+    "r.queueFn" ∈ Restic.Gen.pmFlush_calls := by
+  decide
+
+/-- the merge condition looks at both sizes **and** both entry counts (the fix of F9) -/
+theorem merge_checks_count :
+    ["p.Size", "packer.Size", "p.Count", "packer.Count"].all (· ∈ Restic.Gen.pmMergePackers_calls) = true ∧
+    pos "packer.Count" Restic.Gen.pmMergePackers_calls < pos "p.Merge" Restic.Gen.pmMergePackers_calls := by
+  decide
+
+/-- `savePacker`: Finalize, then the backend write, then `StorePack` (upload before index) -/
+theorem savePacker_upload_before_index :
+    pos "p.Packer.Finalize" Restic.Gen.savePacker_calls < pos "r.be.Save" Restic.Gen.savePacker_calls ∧
+    pos "r.be.Save" Restic.Gen.savePacker_calls < pos "r.idx.StorePack" Restic.Gen.savePacker_calls ∧
+    "r.idx.StorePack" ∈ Restic.Gen.savePacker_calls := by
+  decide
+
+/-- `flushPackUploader` / `flush`: both managers are flushed, then the uploader is shut down and
+    waited for, and only then the index is flushed: the session shape of `ended_of_flush_drain`. -/
+theorem flush_order :
+    Restic.Gen.flushPackUploader_calls = ["r.treePM.Flush", "r.dataPM.Flush", "r.uploader.TriggerShutdown", "r.packerWg.Wait"] ∧
+    Restic.Gen.repoFlush_calls = ["r.flushBlobSaver", "r.flushPackUploader", "r.idx.Flush"] := by
+  decide
+
+/-- `saveAndEncrypt` dispatches on the blob type: tree blobs to `treePM`, data blobs to `dataPM`,
+    anything else panics (`Sess.step`'s `.save`). -/
+theorem dispatch_cases : Restic.Gen.saveAndEncrypt_cases = ["restic.TreeBlob", "restic.DataBlob", "default"] := by
+  decide
+
+/-- constants: the oracle range of `pickPacker` is not empty, every admissible pack size is positive
+    (hypothesis `0 < ps` of the theorems), and the layout constants satisfy `CfgOK` (`genCfg_ok`);
+    `MaxHeaderEntries` is exactly the largest entry count whose header fits. -/
+theorem consts_ok :
+    0 < Restic.Gen.repo_defaultPackerCount ∧ 0 < Restic.Gen.repo_MinPackSize ∧ CfgOK genCfg ∧
+    genCfg.headerSize + (genCfg.maxHeaderEntries + 1) * genCfg.entrySize > genCfg.maxHeaderSize :=
+  ⟨by decide, by decide, genCfg_ok, by decide⟩
+
+/-! ### non-vacuity -/
+
+/-- a small concrete history: three blobs into two packers (pack size 100), the second one fills
+    packer 0; the final Flush merges nothing (one open packer) — two packs are handed to the uploader -/
+example : ((run genCfg 100 2 [.save ⟨.data, 1, 60, 0⟩ 0, .save ⟨.data, 2, 50, 0⟩ 0, .save ⟨.data, 3, 10, 7⟩ 1, .flush]).pm.queued.map
+    (fun p => (p.serial, p.n, p.bytes))) = [(1, 1, 10), (0, 2, 110)] := by decide
+
+/-- Flush merges two small open packers into one pack -/
+example : ((run genCfg 100 2 [.save ⟨.data, 1, 20, 0⟩ 0, .save ⟨.data, 2, 30, 0⟩ 1, .flush]).pm.queued.map
+    (fun p => (p.serial, p.blobs.map (·.id)))) = [(0, [2, 1])] := by decide
+
+/-- an oversized blob gets its own pack and is queued at once -/
+example : ((run genCfg 100 2 [.save ⟨.tree, 1, 100, 0⟩ 0]).pm.queued.map (·.n), slotPackers (run genCfg 100 2 [.save ⟨.tree, 1, 100, 0⟩ 0]).pm)
+    = ([1], []) := by decide
+
+/-- a complete session: one tree blob, two data blobs, flushes, both packs uploaded and indexed;
+    the hypotheses of `blob_in_one_pack` are satisfiable -/
+example : ended (Sess.run genCfg 100 2
+    [.save ⟨.tree, 1, 10, 0⟩ 0, .save ⟨.data, 2, 30, 0⟩ 1, .save ⟨.data, 3, 30, 0⟩ 0, .flush .tree, .flush .data,
+     .upload 1, .upload 0, .store 0, .store 0]) ∧
+    (Sess.run genCfg 100 2
+    [.save ⟨.tree, 1, 10, 0⟩ 0, .save ⟨.data, 2, 30, 0⟩ 1, .save ⟨.data, 3, 30, 0⟩ 0, .flush .tree, .flush .data,
+     .upload 1, .upload 0, .store 0, .store 0]).indexed.length = 2 := by
+  refine ⟨⟨by decide, by decide, fun t => by cases t <;> decide⟩, by decide⟩
 
 end Restic.Props.C44
